@@ -231,3 +231,11 @@ def const_true(*a, **k):
 def fork(cond):
     """explicit case split (same as `if cond:` but usable in expressions)"""
     return bool(cond)
+
+
+class Alternatives:
+    """under-specified outcome: the real function may do any one of these.
+    each alternative is ("return", value) or ("raise", (ExcClass, ...))"""
+
+    def __init__(self, *alts):
+        self.alts = list(alts)
